@@ -38,6 +38,8 @@ ASSUMPTIONS = [
     "zero values for an arity [1..N] attribute (empty string) are read as 'attribute absent' and are not used as too-few mutants",
     "in <default> context the admissible attributes are the schema's documented projection: attributes minus name/class minus (nodefault)",
     "leak reports (LeakSanitizer) are informational: leaks are not part of the statement",
+    "sanitizer reports raised inside mj_makeData/mj_step of a model that loaded are outside the statement (which is about the "
+    "load calls); they are listed in the evidence (run_phase_reports) for the engine properties and do not decide C37",
 ]
 
 TOK_MSG = re.compile(r"^(XML parse error|XML root element not found)")
@@ -257,9 +259,15 @@ def _run_batch(job):
                         timeout=max(600, (end - pos) * 2 + 300), env=env)
         lines = r["out"].splitlines()
         last_b = None
+        in_run = False
         for l in lines:
             if l.startswith("B "):
                 last_b = int(l[2:])
+                in_run = False
+            elif l.startswith("R "):
+                in_run = True
+            elif l.startswith("L "):
+                in_run = False
             elif l.startswith("V "):
                 kv = dict(re.findall(r"(\w+)=(\S+)", l))
                 msg = l.split(" msg=", 1)[1] if " msg=" in l else (l.split(" type=", 1)[1] if " type=" in l else "")
@@ -298,9 +306,9 @@ def _run_batch(job):
                 if sig in seen:
                     continue
                 seen.add(sig)
-                res["events"].append(dict(type="sanitizer", index=idx, sig=sig, where=where, text=text[:3500]))
+                res["events"].append(dict(type="sanitizer", index=idx, sig=sig, where=where, text=text[:3500], run_phase=in_run))
         elif not already:
-            res["events"].append(dict(type="died", index=idx, rc=r["rc"], stderr=r["err"][-1500:]))
+            res["events"].append(dict(type="died", index=idx, rc=r["rc"], stderr=r["err"][-1500:], run_phase=in_run))
         res["summary"]["execs"] = res["summary"].get("execs", 0) + (idx - pos + 1 if not finished else 0)
         res["resumes"] += 1
         pos = idx + 1
@@ -380,6 +388,15 @@ def _record_event(ctx, flavour, seed, e):
                   input_b64=e.get("input_b64", ""), info={k: v for k, v in e.items() if k not in ("input_b64",)})
     data = base64.b64decode(e.get("input_b64", "") or "")
     t = e["type"]
+    if e.get("run_phase") and t in ("sanitizer", "died"):
+        # raised inside mj_makeData/mj_step of a model that loaded: outside the statement (loading); listed for the engine properties
+        sig = e.get("sig") or "exit-status(%s)" % e.get("rc")
+        ctx.count("fuzz_run_phase_reports")
+        ctx.extra.setdefault("run_phase_reports", {})
+        ent = ctx.extra["run_phase_reports"].setdefault(sig, dict(count=0, flavour=flavour, fuzz_seed=seed, index=e.get("index"),
+                                                                   head=(e.get("text") or e.get("stderr") or "")[:300]))
+        ent["count"] += 1
+        return
     if t == "contract":
         msg = e.get("msg", "")
         if e["kind"] in ("ESCAPED-ERROR", "uncaught-exception") and RESOURCE_RE.search(msg):
@@ -966,6 +983,8 @@ def run(ctx):
         shutil.rmtree(scratch, ignore_errors=True)
         ctx.extra.pop("_scratch", None)
     ctx.min_nontrivial = ctx.pick(150, 400)
+    if os.environ.get("VERIF_C37_DEBUG"):
+        Path(os.environ["VERIF_C37_DEBUG"]).write_text(json.dumps(core._jsonable(ctx.extra), indent=1))
 
 
 def replay(ctx, path):
